@@ -4,7 +4,8 @@
    exp enters only through |exp(dt lambda)|^2 <= 1 for Re(dt lambda) <= 0 and = 1 for Re = 0 (property of the real exponential),
    which is the premise on the propagator E below. *)
 From Coq Require Import ZArith QArith List Bool Lia.
-From EXV Require Import Base.Scalar Base.FieldLemmas Base.Cplx Spectral.Symbols Spectral.RealSymbols Steppers.NonAmplification.
+From EXV Require Import Base.Scalar Base.FieldLemmas Base.Cplx Spectral.Symbols Spectral.RealSymbols Steppers.NonAmplification
+  IC.Normalize DFT.DFTD Metrics.Metrics Metrics.ParsevalRealD Steppers.L2Stability.
 Import ListNotations.
 Local Open Scope fld_scope.
 Ltac splits := repeat match goal with |- _ /\ _ => split end.
@@ -55,6 +56,26 @@ Theorem C11_wave_energy_conserved : forall (F : FieldT) (Cc Ss cr : F) (h v : cx
   cnorm2 v' + cr * cr * cnorm2 h' = cnorm2 v + cr * cr * cnorm2 h.
 Proof. intros. apply wave_energy_conserved; assumption. Qed.
 Print Assumptions C11_wave_energy_conserved.
+
+(* END TO END, every dimension: a step that multiplies every stored mode of a real field by a factor of modulus <= 1 (and returns a real
+   field) does not increase the discrete L2 norm; modulus one preserves it.  Mode-wise estimate + Parseval on the stored half spectrum
+   (Hermitian symmetry, multiplicities 1/2).  n^(D+1) is the positive constant of Parseval's identity. *)
+Theorem C11_l2_norm_not_amplified : forall (F : FieldT) (FR : FormallyReal F) (le : F -> F -> Prop), OrderLaws F le ->
+  forall (n : nat) (w : cx F), (0 < n)%nat ->
+  @fpow (CField FR) w n = c1 F -> (forall m, (0 < m < n)%nat -> @fpow (CField FR) w m <> c1 F) -> cmul w (cconj w) = c1 F ->
+  forall (D : nat) (u v : list nat -> F) (E : list nat -> cx F),
+  (forall lead b, In lead (gridD D n) -> (b < n / 2 + 1)%nat ->
+     rdftD F n w (S D) v (lead ++ [b]) = cmul (E (lead ++ [b])) (rdftD F n w (S D) u (lead ++ [b]))) ->
+  ((forall k, le 0 (1 - cnorm2 (E k))) ->
+     le (npts F (S D) n * sumD F (S D) n (fun j => v j * v j)) (npts F (S D) n * sumD F (S D) n (fun j => u j * u j)))
+  /\ ((forall k, cnorm2 (E k) = 1) ->
+     npts F (S D) n * sumD F (S D) n (fun j => v j * v j) = npts F (S D) n * sumD F (S D) n (fun j => u j * u j)).
+Proof.
+  intros F FR le (L1 & L2 & L3 & L4 & L5) n w Hn H1 H2 H3 D u v E Hv. split; intros HE.
+  - apply (l2_norm_not_amplified F FR le L1 L3 L4 L5 n w Hn H1 H2 H3 D u v E Hv HE).
+  - apply (l2_norm_preserved F FR n w Hn H1 H2 H3 D u v E Hv HE).
+Qed.
+Print Assumptions C11_l2_norm_not_amplified.
 
 (* the premises are satisfiable: the rationals with their usual order *)
 From Coq Require Import Qcanon.
